@@ -297,6 +297,27 @@ func intsStr(ts []int) string {
 
 func drawScenario(rng *rand.Rand, big bool) joeScenario {
 	var sc joeScenario
+	if rng.Intn(50) == 0 {
+		// a crowd: 64 to 110 subscribers of one topic, most of whose writers fail at their first call (every connection
+		// dropping at once), one or two publications, then Shutdown
+		sc.rep = "none"
+		n := 64 + rng.Intn(47)
+		for i := 0; i < n; i++ {
+			s := joeSub{topics: []int{0}, last: "-", cancel: "-", startAt: "0"}
+			if rng.Intn(10) != 0 {
+				s.failAt = 1 + rng.Intn(2)
+				if rng.Intn(2) == 0 {
+					s.cancel = "fail"
+				}
+			}
+			sc.subs = append(sc.subs, s)
+		}
+		for p, np := 0, 1+rng.Intn(2); p < np; p++ {
+			sc.pubs = append(sc.pubs, joePub{topics: []int{0}})
+		}
+		sc.shuts = []string{"end"}
+		return sc
+	}
 	switch rng.Intn(10) {
 	case 0, 1:
 		sc.rep = "none"
@@ -342,6 +363,12 @@ func drawScenario(rng *rand.Rand, big bool) joeScenario {
 	if big {
 		np += rng.Intn(8)
 		ns += rng.Intn(4)
+	}
+	// one scenario in six with a Finite/Valid replayer: more publications than the ring holds when it is first filled,
+	// and a late subscriber that resumes from an old ID with a writer failing once in mid-replay (below)
+	lateResumer := (strings.HasPrefix(sc.rep, "finite") || strings.HasPrefix(sc.rep, "valid")) && rng.Intn(6) == 0
+	if lateResumer {
+		np = 4 + rng.Intn(6)
 	}
 	groups := 1 + rng.Intn(3)
 	for p := 0; p < np; p++ {
@@ -390,6 +417,14 @@ func drawScenario(rng *rand.Rand, big bool) joeScenario {
 			s.cancel = "fail" // what net/http does on every write error
 		}
 		sc.subs = append(sc.subs, s)
+	}
+	if lateResumer {
+		all := make([]int, nt)
+		for t := range all {
+			all[t] = t
+		}
+		sc.subs = append(sc.subs, joeSub{topics: all, last: fmt.Sprintf("n%d", rng.Intn(np)), failAt: 1 + rng.Intn(3),
+			cancel: pick(rng, "-", "-", "fail"), startAt: fmt.Sprintf("p%d", np-1)})
 	}
 	nsh := rng.Intn(3)
 	for k := 0; k < nsh; k++ {
